@@ -25,7 +25,7 @@ const RATES: [f64; 5] = [1.0, 0.5, 2.0, 1.5, 0.0];
 const PACKETS: [&[usize]; 5] = [&[1], &[2], &[3], &[64], &[1, 3, 2]];
 const GRANS: [usize; 3] = [1, 3, 8];
 const CHUNKS: [usize; 2] = [1, 3];
-const LETTERS: [&str; 8] = [
+const LETTERS: [&str; 12] = [
 	"none",
 	"set_volume(-6dB, 2 frames)",
 	"set_panning(0.5, instant)",
@@ -34,6 +34,10 @@ const LETTERS: [&str; 8] = [
 	"resume(2 frames)",
 	"stop(2 frames)",
 	"set_playback_rate(0.5, instant)",
+	"pause(2 frames); stop(2 frames) - same callback interval",
+	"stop(2 frames); pause(2 frames) - same callback interval",
+	"pause(instant); resume(2 frames) - same callback interval",
+	"resume(2 frames); stop(2 frames) - same callback interval",
 ];
 
 fn lens(tier: Tier) -> Vec<usize> {
@@ -91,7 +95,7 @@ impl Check for C09 {
 		format!("len {} rate {}", len, rate)
 	}
 	fn rule(&self) -> String {
-		"product of audio length (1,2,3,5,8; 1..=8 thorough) x rate {1,0.5,2,1.5,0} x packet pattern {1s,2s,3s,one packet,1-3-2} x seek granularity {1,3,8} x start position 0..len-1 x slice {none,(1,len-1)} x loop {none, whole, every (a,b) with a<b on a 3-point lattice} x chunk {1,3} x all command histories (no seeks) of length <= 1 (2 thorough) over 8 letters; static and streaming sound in lock-step: output frames (bit-exact at integer steps, 1e-6 otherwise), finished()/state after every callback, positions within one frame. The reference model is the static implementation (differential); states = distinct (state, position) pairs observed; non-trivial = scenarios with non-silent output".into()
+		"product of audio length (1,2,3,5,8; 1..=8 thorough) x rate {1,0.5,2,1.5,0} x packet pattern {1s,2s,3s,one packet,1-3-2} x seek granularity {1,3,8} x start position 0..len-1 x slice {none,(1,len-1)} x loop {none, whole, every (a,b) with a<b on a 3-point lattice} x chunk {1,3} x all command histories (no seeks) of length <= 1 (2 thorough) over 12 letters (4 of them two life-cycle commands in one callback interval); loop regions incl. open-ended ones; static and streaming sound in lock-step: output frames (bit-exact at integer steps, 1e-6 otherwise), finished()/state after every callback, positions within one frame. The reference model is the static implementation (differential); states = distinct (state, position) pairs observed; non-trivial = scenarios with non-silent output".into()
 	}
 	fn assumptions(&self) -> Vec<String> {
 		vec![
@@ -128,6 +132,11 @@ impl Check for C09 {
 						loops.push(Some((a, b)));
 					}
 				}
+			}
+			// open-ended regions `a..` (the end is resolved against the slice)
+			loops.push(Some((0, usize::MAX)));
+			if n / 2 > 0 {
+				loops.push(Some((n / 2, usize::MAX)));
 			}
 			loops.dedup();
 			for start in 0..n {
@@ -195,10 +204,11 @@ impl Sc {
 fn code(i: usize) -> Frame {
 	Frame::new((i + 1) as f32 / 16.0, -((i + 1) as f32) / 32.0)
 }
+/// (b == usize::MAX stands for an open end: `a..`)
 fn reg(a: usize, b: usize) -> Region {
 	Region {
 		start: PlaybackPosition::Samples(a),
-		end: EndPosition::Custom(PlaybackPosition::Samples(b)),
+		end: if b == usize::MAX { EndPosition::EndOfAudio } else { EndPosition::Custom(PlaybackPosition::Samples(b)) },
 	}
 }
 fn tw(frames: f64) -> Tween {
@@ -218,6 +228,22 @@ fn apply(h: &mut dyn SoundHandle, l: usize) {
 		5 => h.resume(tw(2.0)),
 		6 => h.stop(tw(2.0)),
 		7 => h.set_playback_rate(Value::Fixed(PlaybackRate(0.5)), tw(0.0)),
+		8 => {
+			h.pause(tw(2.0));
+			h.stop(tw(2.0));
+		}
+		9 => {
+			h.stop(tw(2.0));
+			h.pause(tw(2.0));
+		}
+		10 => {
+			h.pause(tw(0.0));
+			h.resume(tw(2.0));
+		}
+		11 => {
+			h.resume(tw(2.0));
+			h.stop(tw(2.0));
+		}
 		_ => {}
 	}
 }
@@ -281,7 +307,7 @@ fn run(sc: &Sc, ctx: &mut Ctx) {
 			let (ps, pt) = (hs.position() * sr as f64, ht.position() * sr as f64);
 			let near = (ps - pt).abs() <= 1.0 + 1e-9;
 			// around a loop wrap the two may name adjacent frames on either side of the wrap
-			let wrap_ok = sc.lp.map(|(a, b)| ((ps - pt).abs() - (b - a) as f64).abs() <= 1.0 + 1e-9).unwrap_or(false);
+			let wrap_ok = sc.lp.map(|(a, b)| ((ps - pt).abs() - (b.min(sc.slice.map(|(x, y)| y - x).unwrap_or(sc.len)) - a) as f64).abs() <= 1.0 + 1e-9).unwrap_or(false);
 			if !near && !wrap_ok {
 				ctx.fail(
 					"reported positions differ by more than one frame :: scenario",
